@@ -107,6 +107,7 @@ func init() {
 		ruleAppendAlias(c, r, c.anchored("C03"), 40)
 		ruleWildcardOpt(c, r)
 		ruleOptsScan(c, r)
+		ruleOMEmptiness(c, r)
 	})
 }
 
@@ -122,6 +123,7 @@ func init() {
 		ruleReflectString(c, r, c.anchored("C12"))
 		ruleKeyExact(c, r)
 		ruleKeyMapLookupN(c, r, 4, "ytypes", "node.go", "gnmi.go", "list.go")
+		ruleOMEmptiness(c, r)
 	})
 }
 
@@ -232,6 +234,7 @@ func init() {
 		ruleEnumKeyRender(c, r)
 		ruleDedupScope(c, r)
 		ruleStripExact(c, r)
+		ruleEnumUnsetRender(c, r)
 	})
 	register("C20", func(c *Ctx, r *Report) {
 		r.Decides("three panic classes over everything statically reachable from the nine entry points: unchecked single-result type assertions, comparisons of possibly-uncomparable interface values, reflective calls with unchecked arity; plus no explicit panic().",
